@@ -23,8 +23,8 @@ CHECKS = {
              text="Generated-history search; the oracle compares log positions of the sink's disposal and of every later delivery begin.", ref="DESIGN.md §4 C03"),
  "C04": dict(engine="world", technique="property-based testing: generated histories against sink-side protocol monitors and an orphan/double-termination invariant at every puppet source",
              text="Generated-history search; puppets record everything operators send upstream; invariants: one subscription, no message before greeting / after end / after termination, exactly one termination when the output is over, Error kind preserved through pass-through paths.", ref="DESIGN.md §4 C04"),
- "C05": dict(engine="world", technique="property-based testing with fault injection: a generated upstream failure at every position, oracle = exactly one Error with the same Arc at every attached sink",
-             text="Generated fault positions; identity of the error checked with Arc::ptr_eq at the probe. One listed known finding (D6, combine!).", ref="DESIGN.md §4 C05"),
+ "C05": dict(engine="world", technique="property-based testing with fault injection: a generated upstream failure at every position, oracle = exactly one Error with the same Arc at every attached sink and every other live upstream disposed exactly once",
+             text="Generated fault positions (inside a greeting, inside a Pull reply, pushed re-entrantly from a sink handler, between data, with siblings active / ended / not yet greeted); identity of the error checked with Arc::ptr_eq at the probe. One listed known finding (D6, combine!).", ref="DESIGN.md §4 C05"),
  "C17": dict(engine="world", technique="property-based testing (proptest; libFuzzer in the thorough tier): catch_unwind around every generated environment step over all scenario profiles, pipelines and virtual-clock scenarios",
              note=WORLD_NOTE + " Late-greeting upstreams are generated under concat!/flatten/unary operators (quiet on the unchanged tree) but not under share, where a sink pulling before the upstream greeted panics: that situation is outside the property's quantifier.",
              text="Every top-level step of every generated scenario runs under catch_unwind with a recording panic hook; any panic with conformant peers is a violation.", ref="DESIGN.md §4 C17"),
@@ -40,7 +40,7 @@ CHECKS = {
              text="Oracle: inner subscribed inside the outer datum, exactly one greeting Pull, previous inner disposed exactly once on a switch, probe data == data of the current inner, completion only in the two sanctioned places, Pull routing inner-else-outer with causes attributed by nesting.", ref="DESIGN.md §4 C11"),
  "C12": dict(engine="world", technique="model-based property testing: share over one puppet with 1..3 probes against a reference-count model",
              text="Generated attach/detach/pull orders interleaved with source data/end/error; oracle: a fresh upstream exactly when a sink attaches while none is attached, never two live upstreams, fan-out equals what was emitted while attached, one upstream Pull per sink Pull, upstream disposed exactly in the detach that empties the list.", ref="DESIGN.md §4 C12",
-             note=WORLD_NOTE + " With 2+ probes the puppet never answers a Pull synchronously (the property's quantifier excludes nested fan-out; that case is generated for C02/C03 instead)."),
+             note=WORLD_NOTE + " With 2+ probes the puppet never answers a Pull synchronously (the property's quantifier excludes nested fan-out; that case is generated for C02/C03 instead). Probes also act on each other from inside handlers (one leaves, a free one joins) and subscribe again from inside their own end handler; the latter exposes the listed known finding D9 (share gives such a subscriber no fresh upstream), after which the verdict of that scenario stops."),
  "C13": dict(engine="world", technique="metamorphic property testing: a two-subscription interleaved run projected onto each subscription (by actor identity) must equal that subscription's solo run",
              text="Generated operator (any but share, also nested one level, and from_iter), two probes with independent scripts, a generated interleaving and cross-subscription pulls issued from inside the other subscription's handlers; the oracle re-runs each subscription alone (cross-issued pulls become top-level pulls) and compares the order of all deliveries, closure calls and Iterator::next/clone calls. interval is judged by the per-subscription tick model on the virtual clock.", ref="DESIGN.md §4 C13, §12.6"),
  "C14": dict(engine="world", technique="property-based testing with a counting invariant over every prefix: Data <= Pulls at the sink, and outstanding demand is always in flight at some upstream",
